@@ -211,10 +211,19 @@ func run(c *hk.Ctx) {
 	runHTTP(warm)
 	scens := enumerate(c)
 	reruns, noise := 0, 0
+	confirmed := map[string]bool{}
 	timing := map[string]float64{}
 	for _, sc := range scens {
 		ts := time.Now()
 		obs, probs := runOne(sc, c.Dir)
+		// a fingerprint that has been confirmed (failed in 3 solo re-runs) is not re-confirmed scenario after scenario
+		fresh := probs[:0:0]
+		for _, p := range probs {
+			if !confirmed[p.fp] {
+				fresh = append(fresh, p)
+			}
+		}
+		probs = fresh
 		if len(probs) > 0 {
 			// re-run alone, up to 3 times: only what fails every time is reported
 			persistent := map[string]problem{}
@@ -245,6 +254,7 @@ func run(c *hk.Ctx) {
 					c.Noise()
 					continue
 				}
+				confirmed[fp] = true
 				c.Violate(hk.Violation{Fingerprint: fp, What: p.what, Input: sc, Observed: p.observed})
 			}
 			if invalid {
@@ -408,8 +418,7 @@ func runGetAfterClose(c *hk.Ctx) {
 		}
 		if opened {
 			// is it still being read some time after Close returned? (nothing is left that could end it)
-			time.Sleep(50 * time.Millisecond)
-			cn := takeCensus()
+			cn := settle(base, 100*time.Millisecond)
 			left := cn.diffLib(base)
 			if len(left) > 0 {
 				leaks++
